@@ -194,7 +194,12 @@ type injector struct {
 	failLists     int
 	failListsLost bool
 	listsFailed   int
-	skipped       bool // that fault was not applicable to the verb of the call at its position
+	// listWindow: run once while the next LIST is in flight, with every lock of the client released (what other goroutines of
+	// the same process do meanwhile). listStale: the LIST's answer was computed BEFORE the window (the response was on the
+	// wire while the window's writes happened); otherwise it is computed after.
+	listWindow func()
+	listStale  bool
+	skipped    bool // that fault was not applicable to the verb of the call at its position
 	// onThirdParty tells the run's model that the API state of name was changed by the injected third party
 	onThirdParty func(name string, now val)
 	// interleave: run once, between two API calls of the operation in progress (right before the interleaveAt-th call
@@ -260,6 +265,31 @@ func (in *injector) react(a k8stesting.Action) (bool, runtime.Object, error) {
 				return true, nil, errDead
 			}
 		}
+	}
+	if in.listWindow != nil && verb == "list" && in.failLists == 0 {
+		f := in.listWindow
+		in.listWindow = nil
+		in.calls++
+		in.verbs = append(in.verbs, verb)
+		var h bool
+		var obj runtime.Object
+		var err error
+		if in.listStale {
+			h, obj, err = in.apply(a)
+		}
+		in.mu.Unlock()
+		in.fake.Unlock()
+		func() {
+			defer func() {
+				in.fake.Lock()
+				in.mu.Lock()
+			}()
+			f()
+		}()
+		if !in.listStale {
+			h, obj, err = in.apply(a)
+		}
+		return h, obj, err
 	}
 	if in.failLists > 0 && verb == "list" {
 		in.failLists--
